@@ -45,7 +45,7 @@ pub fn prop() -> Prop {
         stub: &["transport", "store", "glue", "random source", "replaying / substituting adversary"],
         independent: &[],
         ref_sample: |_| 0,
-        required_probes: &["fillings_exhaustive", "sub_message", "sub_hiding_own", "sub_binding_other", "sub_add_participant", "sub_remove_participant", "sub_rename_participant", "sub_group_key", "sub_claimed_identifier", "sub_R_preserving", "wrong_nonces_refused", "missing_entry_refused", "identity_commitment_rejected"],
+        required_probes: &["fillings_exhaustive", "sub_message", "sub_hiding_own", "sub_binding_other", "sub_add_participant", "sub_remove_participant", "sub_rename_participant", "sub_group_key", "sub_claimed_identifier", "sub_R_preserving", "sub_share_filed_under_other_identifier", "own_entry_swapped_with_another_signer", "wrong_nonces_refused", "missing_entry_refused", "identity_commitment_rejected"],
         prepare: None,
     }
 }
@@ -356,6 +356,30 @@ fn exec_c<C: Suite>(scen: &Scenario) -> Exec {
             return Exec::Violation(v, rep);
         }
     }
+    // claimed identifier replaced in the SHARE MAP only (package intact): filed under a non-signing group member, and under
+    // an identifier outside the group. The sum of the shares is unchanged, so only the identifier check can refuse it.
+    {
+        let mut outside: Vec<(String, Identifier<C>)> = Vec::new();
+        if let Some(ns) = non_signers.first() {
+            outside.push(("a non-signing group member".into(), sim.ids[*ns]));
+        }
+        if let Some(o) = id_from_scalar::<C>(&(id_scalar::<C>(ids.last().unwrap()) + sc_from_u64::<C>(424242))) {
+            if !sim.ids.contains(&o) {
+                outside.push(("an identifier outside the group".into(), o));
+            }
+        }
+        for (what, oid) in outside {
+            for who in [0usize, k - 1] {
+                let mut sh = a.shares.clone();
+                let z = sh.remove(&ids[who]).unwrap();
+                sh.insert(oid, z);
+                rep.probe("sub_share_filed_under_other_identifier");
+                if let Some(v) = all_reject(&mut rep, &format!("share of signer #{who} filed under {what} (package unchanged)"), &a.package, &sh, &a.pk) {
+                    return Exec::Violation(v, rep);
+                }
+            }
+        }
+    }
     // group key: another group's key, and a re-randomised key
     {
         let r = sc_random_nonzero::<C>(&mut sp);
@@ -450,6 +474,35 @@ fn exec_c<C: Suite>(scen: &Scenario) -> Exec {
             rep.evaluations += 1;
             if sign(&pkg, &a.nonces[&me]).is_ok() {
                 return Exec::Violation(viol("C05.signer_accepted_wrong_nonces", format!("sign() accepted a package whose own {field} commitment differs from the nonces'")), rep);
+            }
+        }
+        // mis-filed package: the signer's own pair sits under ANOTHER signer's identifier and its own slot holds that signer's pair
+        if k >= 2 {
+            let other = *ids.iter().find(|i| **i != me).unwrap();
+            let mut cm = a.package.signing_commitments().clone();
+            let mine = cm[&me];
+            let theirs = cm[&other];
+            if mine != theirs {
+                cm.insert(me, theirs);
+                cm.insert(other, mine);
+                let pkg = SigningPackage::<C>::new(cm, a.package.message());
+                rep.evaluations += 1;
+                rep.probe("own_entry_swapped_with_another_signer");
+                if sign(&pkg, &a.nonces[&me]).is_ok() {
+                    return Exec::Violation(viol("C05.signer_accepted_wrong_nonces", "sign() accepted a package in which its own commitments are filed under another signer's identifier and its own slot holds that signer's commitments".into()), rep);
+                }
+            }
+            // own slot holds the session-B entry while the session-A entry sits in another signer's slot
+            let mut cm = a.package.signing_commitments().clone();
+            let mine_b = b.package.signing_commitments()[&me];
+            if mine_b != mine {
+                cm.insert(me, mine_b);
+                cm.insert(other, mine);
+                let pkg = SigningPackage::<C>::new(cm, a.package.message());
+                rep.evaluations += 1;
+                if sign(&pkg, &a.nonces[&me]).is_ok() {
+                    return Exec::Violation(viol("C05.signer_accepted_wrong_nonces", "sign() accepted a package whose own slot holds the session-B entry while the session-A entry sits in another signer's slot".into()), rep);
+                }
             }
         }
         // own entry missing (replaced by an outsider's so the count stays >= t when possible)
